@@ -162,7 +162,7 @@ def outcome(before, field):
     return "B"
 
 
-def spec_lines(case_line, impl_line):
+def spec_lines(case_line, impl_line, kinds="EDR"):
     """spec case lines for one implementation result (the spec is evaluated on what the implementation did)"""
     f = case_line.split("\t")
     r = impl_line.split("\t")
@@ -172,16 +172,16 @@ def spec_lines(case_line, impl_line):
     st = [content]
     for fld, op in zip(r[1:], ops):
         st.append(st[-1] if op == "s" else fld.partition(":")[2])
-    if ops == "ees":
+    if ops == "ees" and "E" in kinds:
         return ["\t".join(["specE", P, content, outcome(st[0], r[1]), outcome(st[1], r[2]), r[3].partition(":")[2]])]
-    if ops.startswith("d"):
+    if ops.startswith("d") and "D" in kinds:
         return ["\t".join(["specD", P, content, outcome(st[0], r[1])])]
-    if ops == "ed":
+    if ops == "ed" and "R" in kinds:
         return ["\t".join(["specR", P, content, outcome(st[0], r[1]), outcome(st[1], r[2])])]
     return []
 
 
-def evaluate(run, exe, cases, tag):
+def evaluate(run, exe, cases, tag, kinds="EDR"):
     """model vs implementation vs spec on one stream.  Returns dict(mismatch, spec_bad, faults, model, impl)."""
     mo = run_model(run, cases, tag)
     io = run_impl(run, exe, cases, tag)
@@ -189,7 +189,7 @@ def evaluate(run, exe, cases, tag):
     faults = [(i, cases[i], io[i]) for i in range(len(cases)) if re.search(r"(crash:\d+|san):", io[i]) or not io[i].startswith("ok")]
     idx, sl = [], []
     for i, c in enumerate(cases):
-        for l in spec_lines(c, io[i]):
+        for l in spec_lines(c, io[i], kinds):
             idx.append(i)
             sl.append(l)
     so = run_model(run, sl, tag + "-spec") if sl else []
@@ -197,12 +197,12 @@ def evaluate(run, exe, cases, tag):
     return {"mismatch": mism, "spec_bad": spec_bad, "faults": faults, "model": mo, "impl": io, "nspec": len(sl)}
 
 
-def fails(run, exe, c, tag):
-    r = evaluate(run, exe, [c], tag)
+def fails(run, exe, c, tag, kinds="EDR"):
+    r = evaluate(run, exe, [c], tag, kinds)
     return bool(r["spec_bad"] or r["faults"])
 
 
-def shrink(run, exe, c, tag="shrink"):
+def shrink(run, exe, c, tag="shrink", kinds="EDR"):
     """greedy line deletion while the case still fails its spec (keeps the ops and the path)"""
     f = c.split("\t")
     content = unhex(f[2])
@@ -217,7 +217,7 @@ def shrink(run, exe, c, tag="shrink"):
             cand = lines[:i] + lines[i + 1:]
             cc = "\t".join([f[0], f[1], hexs(b"\n".join(cand)), f[3]])
             budget -= 1
-            if fails(run, exe, cc, tag):
+            if fails(run, exe, cc, tag, kinds):
                 lines = cand
                 changed = True
                 break
@@ -246,7 +246,7 @@ def show(c):
     return "path=%r content=%r ops=%s" % (unhex(f[1]), cont, f[3])
 
 
-def report(run, prop, res, stream, exe):
+def report(run, prop, res, stream, exe, kinds="EDR"):
     """turn an evaluation into violations; returns number of concrete ones"""
     n = 0
     seen = set()
@@ -255,7 +255,7 @@ def report(run, prop, res, stream, exe):
         if sig in seen:
             continue
         seen.add(sig)
-        small = shrink(run, exe, c)
+        small = shrink(run, exe, c, kinds=kinds)
         run.violation(sig, "spec_violation", "snoopyctl's observed behaviour violates the %s specification (%s): %s" % (prop, verdict, show(small)),
                       {"stream": stream, "failing_input": small, "original_case": c, "impl_output": impl, "model_output": res["model"][i], "spec_line": sl, "cases": [small, c]})
         n += 1
@@ -269,14 +269,14 @@ def report(run, prop, res, stream, exe):
     return n
 
 
-def replay_cases(run, prop, path):
+def replay_cases(run, prop, path, kinds="EDR"):
     from .tr_preload import tr_preload
     rep = json.load(open(path))
     run.snapshot()
     tr_preload(run)
     exe = build_ctl(run, san=True)
     cases = rep.get("cases") or []
-    res = evaluate(run, exe, cases, "replay")
+    res = evaluate(run, exe, cases, "replay", kinds)
     for i, c in enumerate(cases):
         print("case: ", show(c))
         print(" model:", res["model"][i][:300])
